@@ -178,6 +178,26 @@ def transform_case(rng, idx):
     return ["case tr%d %s" % (idx, kind)] + ops
 
 
+def ctor_case(rng, idx):
+    """values at distance 1 and 2 ulp from both bounds handed to the IntervalTransformedParameter
+    *constructor* (it has its own copy of the forward formula), tangent and hyperbolic, with read-back"""
+    lo, hi = rnd_interval(rng)
+    if rng.random() < 0.5:
+        lo, hi = rng.uniform(-1e3, 1e3), rng.uniform(-1e3, 1e3)
+        if lo > hi:
+            lo, hi = hi, lo
+        if hi - lo < 1e-3:
+            hi = lo + 1.0
+    scale = 1.0 if rng.random() < 0.7 else rnd_scale(rng)
+    up1 = math.nextafter(hi, lo); up2 = math.nextafter(up1, lo)
+    lo1 = math.nextafter(lo, hi); lo2 = math.nextafter(lo1, hi)
+    ops = []
+    for hy in (0, 0, 1) if rng.random() < 0.5 else (0,):
+        for v in (up1, up2, lo1, lo2):
+            ops.append("t.ctor %d %s %s %s %s %d" % (rng.randint(0, 3), hx(v), hx(lo), hx(hi), hx(scale), hy))
+    return ["case ct%d ulp" % idx] + ops
+
+
 def dyadic(rng, zero_p=0.25):
     if rng.random() < zero_p:
         return 0.0
@@ -602,6 +622,8 @@ def generate(seed, tier):
     stats = {}
     for i in range(n_wr):
         cases.append(wrapper_case(rng, i, stats))
+    for i in range(20000 if tier == "thorough" else 1200):
+        cases.append(ctor_case(rng, i))
     n_ob = 30000 if tier == "thorough" else 1500
     for i in range(n_ob):
         cases.append(object_case(rng, i, stats))
